@@ -256,6 +256,26 @@ def parseTEvs (tok : String) : Option (List TEv) :=
     some [.ack o (← parseB ok), .m (.attempt o (← parseB ok))]
   | _ => (parseTEv tok).map (fun e => [e])
 
+/-- trace acceptance by `cstep`; a `ret` (CommitMessages returned) that the model cannot take yet is retried after
+every later event: in loop mode the `CL.Replied` hook sits AFTER the channel send, so the application's return can be
+logged first.  A `ret` that never becomes acceptable is a reject. -/
+def cAccept : CState → List CEv → List CEv → Nat → Option (Nat × CState)
+  | s, pend, [], i => if pend.isEmpty then none else some (i, s)
+  | s, pend, e :: es, i =>
+    let flush (s : CState) (pend : List CEv) : CState × List CEv :=
+      pend.foldl (fun (acc : CState × List CEv) r => match cstep acc.1 r with
+        | some s' => (s', acc.2)
+        | none => (acc.1, acc.2 ++ [r])) (s, [])
+    match e with
+    | .ret _ _ =>
+      match cstep s e with
+      | some s' => cAccept s' pend es (i + 1)
+      | none => cAccept s (pend ++ [e]) es (i + 1)
+    | _ =>
+      match cstep s e with
+      | some s' => let (s'', pend') := flush s' pend; cAccept s'' pend' es (i + 1)
+      | none => some (i, s)
+
 def opTrace (mode evs : String) : String :=
   let toks := evs.splitOn ";"
   match (toks.mapM parseTEvs).map List.flatten with
@@ -266,7 +286,7 @@ def opTrace (mode evs : String) : String :=
       | .ret id "nil" => if sync then some (.ret id true) else none
       | .ret id "fail" => if sync then some (.ret id false) else none
       | _ => none)
-    let acc := match cfirstReject {} mevs 0 with
+    let acc := match cAccept {} [] mevs 0 with
       | none => "ok"
       | some (i, s) => s!"reject@{i}-of-model-events:{showLPC s.pc}"
     let ms := [monCommitLeHanded es, monSyncRecorded sync es, monBelieved es, monCommitIds es, monSubscribe es, monFetchBeforeGen es].filterMap id
